@@ -313,9 +313,13 @@ class AttributeAssignment:
         :return: True if a type filter condition is needed for the attribute assignment, else False.
         """
         attr_type = self.attr._type_
-        return (not attr_type) or (
-            self.assigned_value.type_
-            and not issubclass(attr_type, self.assigned_value.type_)
+        return (
+            (not attr_type)
+            or self.attr._wrapped_field_.is_optional
+            or (
+                self.assigned_value.type_
+                and not issubclass(attr_type, self.assigned_value.type_)
+            )
         )
 
 
